@@ -108,15 +108,45 @@ theorem rstrip_append_sep (c : Char) (s : List Char) (hne : s ≠ []) (h : s.get
 
 /-! ### `parseAll` -/
 
-theorem parseAll_ok (env : Env) (nm : String → String) (T : List String)
-    (h : ∀ f ∈ T, env.parseTop f = .ok (nm f)) :
-    parseAll env T = .ok (T.map (fun f => (f, nm f))) := by
+/-- the candidate is the topology of a molecule (`MoleculeTop(f)` does not raise) -/
+def parses (env : Env) (f : String) : Bool :=
+  match env.parseTop f with
+  | .ok _ => true
+  | .error _ => false
+
+/-- the candidates that survive the (repaired) construction of `topology_molecues` -/
+def parsed (env : Env) (T : List String) : List String := T.filter (parses env)
+
+/-- every candidate either parses (with molecule name `nm f`) or raises `OSError`: the repaired code
+    keeps exactly the former, in order -/
+theorem parseAll_repaired (env : Env) (nm : String → String) (T : List String)
+    (h : ∀ f ∈ T, env.parseTop f = .ok (nm f) ∨ env.parseTop f = .error .IOError) :
+    parseAll env true T = .ok ((parsed env T).map (fun f => (f, nm f))) := by
   induction T with
   | nil => rfl
   | cons f fs ih =>
-    have hf := h f (List.mem_cons_self ..)
     have := ih (fun g hg => h g (List.mem_cons_of_mem _ hg))
-    simp [parseAll, hf, this]
+    rcases h f (List.mem_cons_self ..) with hf | hf
+    · simp [parseAll, hf, this, parsed, parses]
+    · simp [parseAll, hf, this, parsed, parses]
+
+/-- if the only way a candidate fails to parse is `OSError`, the repaired construction never raises -/
+theorem parseAll_total (env : Env) (T : List String)
+    (h : ∀ f ∈ T, ∀ e, env.parseTop f = .error e → e = .IOError) :
+    ∃ tm, parseAll env true T = .ok tm := by
+  induction T with
+  | nil => exact ⟨[], rfl⟩
+  | cons f fs ih =>
+    obtain ⟨tm, htm⟩ := ih (fun g hg => h g (List.mem_cons_of_mem _ hg))
+    cases hf : env.parseTop f with
+    | ok n => exact ⟨(f, n) :: tm, by simp [parseAll, hf, htm]⟩
+    | error e =>
+      have := h f (List.mem_cons_self ..) e hf
+      subst this
+      exact ⟨tm, by simp [parseAll, hf, htm]⟩
+
+theorem mem_parsed {env : Env} {T : List String} {f : String} (h : f ∈ parsed env T) : f ∈ T :=
+  (List.mem_filter.mp h).1
 
 /-! ### first loop -/
 
